@@ -153,17 +153,14 @@ theorem tie_Query_ListAuction (s : Core) (st : Option Status) (ty : Option AType
       cases st <;> cases ty <;> simp [Query_ListAuction.pred1]
       all_goals (try split) <;> (try split) <;> simp_all)
     (by intro x; rfl)
-  have h1 : ((!(ty.map ATypeStr.is).isNone) && (!(((decide (ty.map ATypeStr.is = (some (ATypeStr.is AType.fixed)))) || (decide (ty.map ATypeStr.is = (some (ATypeStr.is AType.batch)))))))) = false := by
-    cases ty with
-    | none => rfl
-    | some t => cases t <;> rfl
-  have h2 : ((!(st.map StatusStr.is).isNone) && (!((((((decide (st.map StatusStr.is = (some (StatusStr.is Status.standby)))) || (decide (st.map StatusStr.is = (some (StatusStr.is Status.started))))) || (decide (st.map StatusStr.is = (some (StatusStr.is Status.vesting))))) || (decide (st.map StatusStr.is = (some (StatusStr.is Status.finished))))) || (decide (st.map StatusStr.is = (some (StatusStr.is Status.cancelled)))))))) = false := by
-    cases st with
-    | none => rfl
-    | some t => cases t <;> rfl
-  simp only [Gen.Query_ListAuction, h1, h2, Bool.false_eq_true, if_false, e]
-  simp only [GStore.allAuctions, storeOf, queryAuctions, List.map_id]
-  rfl
+  -- the guards that refuse malformed strings let every well-formed request through: by cases
+  -- on the request, whatever way the code spells the test (a chain of ==, a switch, a helper)
+  have hq : (List.map id (List.filter (fun a => (match st with | some x => a.status == x | none => true)
+      && (match ty with | some x => a.type == x | none => true)) (GStore.allAuctions (storeOf s)))) = queryAuctions s st ty := by
+    simp only [GStore.allAuctions, storeOf, queryAuctions, List.map_id]
+    rfl
+  simp only [Gen.Query_ListAuction, e, hq]
+  rcases st with _ | st <;> rcases ty with _ | ty <;> (try cases st) <;> (try cases ty) <;> simp
 
 /-- **ListAuction**, a status or type string that names no status / type is refused -/
 theorem tie_Query_ListAuction_malformed (s : Core) (st : Option StatusStr) (ty : Option ATypeStr)
